@@ -234,11 +234,14 @@ func (w *Worker) runPath(prefix []Decision) {
 				func() {
 					defer func() {
 						if r2 := recover(); r2 != nil {
+							if ap, ok := r2.(abortPath); ok && ap.kind == "violated" {
+								return
+							}
 							end = "solver"
 							reason = fmt.Sprint(r2)
 						}
 					}()
-					p.Assert(p.f.False, "panic", msg, "")
+					p.Assert(p.f.False, "panic", msg, firstLines(r.at, 6))
 				}()
 			case internalError:
 				end = "internal"
@@ -301,6 +304,14 @@ func (w *Worker) runPath(prefix []Decision) {
 			w.samples = append(w.samples, PathSample{Decisions: p.decStr(), Model: m, Choices: ch, Observed: p.observed, End: end})
 		}()
 	}
+}
+
+func firstLines(s string, n int) string {
+	lines := strings.Split(s, "\n")
+	if len(lines) > n {
+		lines = lines[:n]
+	}
+	return strings.Join(lines, "\n")
 }
 
 func firstLine(s string) string {
